@@ -81,7 +81,13 @@ def lib_result(res, metrics=METRICS):
         for m in metrics:
             lists[m] = [float(x) for x in res.get_list_metric(Metric[m], MetricMode.ALL)]
         out["lists"] = lists
+        want = {"rq"}
+        for m_, ks in (("IOU", ("sq", "sq_std", "pq")), ("DSC", ("sq_dsc", "sq_dsc_std", "pq_dsc")), ("ASSD", ("sq_assd", "sq_assd_std")), ("RVD", ("sq_rvd", "sq_rvd_std"))):
+            if m_ in metrics:
+                want.update(ks)
         for k in ("rq", "sq", "sq_std", "pq", "sq_dsc", "sq_dsc_std", "pq_dsc", "sq_assd", "sq_assd_std", "sq_rvd", "sq_rvd_std"):
+            if k not in want:
+                continue
             try:
                 v = getattr(res, k)
                 out[k] = None if v is None else float(v)
@@ -92,6 +98,8 @@ def lib_result(res, metrics=METRICS):
 
 def rows_of(lr, metrics=METRICS):
     ls = [lr["lists"][m] for m in metrics]
+    if not ls:  # no instance metric requested: one empty tuple per true positive
+        return [()] * lr["tp"]
     n = {len(l) for l in ls}
     if len(n) != 1:
         return None
@@ -145,10 +153,10 @@ def compare(lr, exp, metrics=METRICS):
     return None
 
 
-def decide(lr, exps, complete):
+def decide(lr, exps, complete, metrics=METRICS):
     """Library result must be one of the expected results when the model enumerated all
     outcomes; with one outcome it must be that one. Returns message or None."""
-    msgs = [compare(lr, e) for e in exps]
+    msgs = [compare(lr, e, metrics) for e in exps]
     if any(m is None for m in msgs):
         return None
     if not complete:
